@@ -10,6 +10,8 @@
 #include "algs.h"
 #include "ref_aead.h"
 #include "tdirect.h"
+#include <signal.h>
+#include <setjmp.h>
 
 enum { I_GCM, I_GCM_VARIV, I_GMAC, I_CHAPOLY, I_GCM_SGLJOB, I_CHAPOLY_SGLJOB };
 typedef struct {
@@ -18,9 +20,24 @@ typedef struct {
 } cfg_t;
 static cfg_t CFG[64];
 static int NCFG;
+/* C07 for the streaming interfaces: every source segment handed to an update call ends flush against an unmapped page */
+static region_t GIN;
+static sigjmp_buf g_jb;
+static volatile int g_guarded;
+static void
+on_fault(int sig, siginfo_t *si, void *u)
+{
+        (void) si;
+        (void) u;
+        if (!g_guarded) {
+                signal(sig, SIG_DFL);
+                return;
+        }
+        siglongjmp(g_jb, 1);
+}
 
 static IMB_MGR *m;
-static int c18_only;
+static int c18_only, c07_only; /* label runs: same exploration, only that property's records are kept */
 static keyset_t *KS;
 static int g_v, thorough;
 static const cfg_t *C;
@@ -56,9 +73,9 @@ static void
 viol(const char *site, const char *detail, uint32_t p, uint32_t s, const char *path)
 {
         char sig[200];
-        if (c18_only)
+        if (c18_only && !(c07_only && !strcmp(site, "fault")))
                 return;
-        snprintf(sig, sizeof sig, "C10|%s|%s|%s", site, C->name, VARIANTS[g_v].name);
+        snprintf(sig, sizeof sig, "%s|%s|%s|%s", g_property, site, C->name, VARIANTS[g_v].name);
         if (!rec_sig_ok(sig, 4))
                 return;
         rec_begin("viol");
@@ -358,7 +375,24 @@ run_cfg_variant(long item, void *arg)
                                 memcpy(&CTX, n->ctx, ctxsize);
                                 if (C->iface != I_GMAC)
                                         memset(OUT, 0xEE, s + 16);
-                                op_update(MSG + p, OUT, s);
+                                uint8_t *gin = region_endflush(GIN, s);
+                                memcpy(gin, MSG + p, s);
+                                g_guarded = 1;
+                                if (sigsetjmp(g_jb, 1)) {
+                                        g_guarded = 0;
+                                        path_str(n, s, pb, sizeof pb);
+                                        const char *save = g_property;
+                                        int c18 = c18_only, c07 = c07_only;
+                                        c18_only = c07_only = 1;
+                                        g_property = "C07";
+                                        viol("fault", "update call faulted: access outside the source segment, which ends flush against an unmapped page", p, s, pb);
+                                        g_property = save;
+                                        c18_only = c18;
+                                        c07_only = c07;
+                                        continue;
+                                }
+                                op_update(gin, OUT, s);
+                                g_guarded = 0;
                                 n_trans++;
                                 if (C->iface != I_GMAC && (memcmp(OUT, EXP + p, s) || OUT[s] != 0xEE)) {
                                         path_str(n, s, pb, sizeof pb);
@@ -510,7 +544,17 @@ int
 main(int argc, char **argv)
 {
         c18_only = argc > 1 && !strcmp(argv[1], "C18"); /* same exploration, only calling-convention records kept */
-        rec_init(c18_only ? "C18" : "C10", getenv("VERIF_TIER") ? getenv("VERIF_TIER") : "quick");
+        c07_only = argc > 1 && !strcmp(argv[1], "C07"); /* ... only faults on the guard-placed source segments kept */
+        if (c07_only)
+                c18_only = 1;
+        rec_init(c07_only ? "C07" : c18_only ? "C18" : "C10", getenv("VERIF_TIER") ? getenv("VERIF_TIER") : "quick");
+        GIN = region_new(2);
+        struct sigaction sa;
+        memset(&sa, 0, sizeof sa);
+        sa.sa_sigaction = on_fault;
+        sa.sa_flags = SA_SIGINFO | SA_NODEFER;
+        sigaction(SIGSEGV, &sa, NULL);
+        sigaction(SIGBUS, &sa, NULL);
         thorough = tier_thorough();
         L = thorough ? 4300 : 2400;
         max_states = thorough ? 4000000 : 600000;
